@@ -63,6 +63,8 @@ func c07Subjects() []c07Subject {
 		c07Subject{"nps[0]", false, false}, c07Subject{"nps[1]", true, false},
 		c07Subject{`npm["k"]`, false, false}, c07Subject{`npm["p"]`, true, false},
 		c07Subject{"retp()", false, false}, c07Subject{"k_pst.NilKid.NilKid", false, false},
+		// a non-nil pointer is truthy whatever it points to
+		c07Subject{"pbf", true, false}, c07Subject{"pse", true, false}, c07Subject{"phe", true, false}, c07Subject{"ppn", true, false}, c07Subject{"ret(pbf)", true, false}, c07Subject{"[pbf][0]", true, true},
 		c07Subject{"[k_npst][0]", false, true}, c07Subject{`{"k": k_npst}["k"]`, false, true},
 	)
 	return s
@@ -95,6 +97,12 @@ func c07Context(log *[]int) *plush.Context {
 	c.Set("two", []int{7, 8})
 	c.Set("ret", func(v interface{}) interface{} { return v })
 	c.Set("retp", func() *Person { return nil })
+	pbf, pse, phe := false, "", template.HTML("")
+	var pn *Person
+	c.Set("pbf", &pbf)
+	c.Set("pse", &pse)
+	c.Set("phe", &phe)
+	c.Set("ppn", &pn)
 	c.Set("nps", []*Person{nil, {Name: "P"}})
 	c.Set("npm", map[string]*Person{"k": nil, "p": {Name: "P"}})
 	c.Set("c", func(i int, v interface{}) interface{} {
@@ -134,7 +142,7 @@ func init() {
 			return s
 		},
 		Run:  c07Run,
-		Rule: "matrix: 93 subjects (61 injected value kinds incl. nil pointer/map/slice/func and empty HTML, unknown identifier, literals, field/index/helper/user-function results) x 14 syntactic contexts (if, silent if, else-if, !, !!, && and || on either side, if(!x), if(x && 1), inside for / fn / helper block): every context must report the truth value given by the statement's table (which makes them agree with each other). chains: if + k else-if (+ else), k<=3, every assignment of condition values from {true,false,0,\"\",\"a\",nil} through a counting helper plus the bare conditions nope / !nope (unknown identifier), blocks as text, as return, or with every second block empty, at top level, inside for / fn / helper block and evaluated twice (loop of two iterations, function called twice): exactly the first truthy block (or else / nothing) is rendered and conditions 0..j are evaluated once each, none after j. rebinding: a name tested while unknown, then bound (loop variable / key, parameter, let and assignment, helper Set, BlockWith child, partial data), then unknown again - every test follows the current binding. ill-formed chains (a second else, or an else if, after the else block): an error or the textually first truthy block, never a later part. Non-trivial: all cases.",
+		Rule: "matrix: 93 subjects (61 injected value kinds incl. nil pointer/map/slice/func and empty HTML, unknown identifier, literals, field/index/helper/user-function results) x 14 syntactic contexts (if, silent if, else-if, !, !!, && and || on either side, if(!x), if(x && 1), inside for / fn / helper block): every context must report the truth value given by the statement's table (which makes them agree with each other). chains: if + k else-if (+ else), k<=3, every assignment of condition values from {true,false,0,\"\",\"a\",nil} through a counting helper plus the bare conditions nope / !nope (unknown identifier), blocks as text, as return, or with every second block empty, at top level, inside for / fn / helper block and evaluated twice (loop of two iterations, function called twice): exactly the first truthy block (or else / nothing) is rendered and conditions 0..j are evaluated once each, none after j. stateful conditions with identical text repeated along a chain (each occurrence is evaluated in turn); non-nil pointers to false / empty string / empty HTML / a nil pointer are truthy; rebinding: a name tested while unknown, then bound (loop variable / key, parameter, let and assignment, helper Set, BlockWith child, partial data), then unknown again - every test follows the current binding. ill-formed chains (a second else, or an else if, after the else block): an error or the textually first truthy block, never a later part. Non-trivial: all cases.",
 		Bound: func(th bool) string {
 			return "matrix complete; chains with up to 3 else-if branches, 8 condition values, 6 placements, 2 block styles"
 		},
@@ -178,12 +186,22 @@ func c07Run(t *engine.T, shard string) {
 			{"partial data", `<%= !p9 %><%= partial("pp9", {"p9": 1}) %><%= !p9 %>`, "true[Tfalse]true"},
 			{"nested loops re-using the name", `<%= for (v9) in two { %><%= for (w) in one { %><%= if (v9) { %>T<% } %><% } %><% } %><%= !v9 %><%= for (v9) in one { %><%= !v9 %><% } %>`, "TTtruefalse"},
 		}
+		rebind = append(rebind,
+			struct{ name, src, want string }{"stateful condition repeated in a chain", `<%= if (pop()) { %>A<% } else if (pop()) { %>B<% } else if (pop()) { %>C<% } else { %>D<% } %>|<%= pops() %>`, "B|2"},
+			struct{ name, src, want string }{"stateful condition repeated, none true", `<%= if (popf()) { %>A<% } else if (popf()) { %>B<% } else if (popf()) { %>C<% } else { %>D<% } %>|<%= pops() %>`, "D|3"},
+			struct{ name, src, want string }{"same condition text, third true", `<%= if (pop3()) { %>A<% } else if (pop3()) { %>B<% } else if (pop3()) { %>C<% } %>|<%= pops() %>`, "C|3"},
+		)
 		for _, c := range rebind {
 			c := c
 			t.Case("rebinding "+c.name+" "+q(c.src), true, func() (string, *engine.Fail) {
 				var log []int
 				ctx := c07Context(&log)
 				ctx.Set("seths", func(help plush.HelperContext) string { help.Set("hs9", 1); return "" })
+				calls := 0
+				ctx.Set("pop", func() bool { calls++; return calls == 2 })
+				ctx.Set("popf", func() bool { calls++; return false })
+				ctx.Set("pop3", func() bool { calls++; return calls == 3 })
+				ctx.Set("pops", func() int { return calls })
 				ctx.Set("withb", func(help plush.HelperContext) (template.HTML, error) {
 					ch := help.New()
 					ch.Set("b9", "B")
